@@ -130,6 +130,25 @@ def find (s t : Str) : Int :=
   | some k => (k : Int)
   | none => -1
 
+/-- `b * k` on bytes (empty for `k ≤ 0`) -/
+def repeatB (b : Bytes) (k : Int) : Bytes := (List.replicate k.toNat b).flatten
+
+/-- `range(a, b, c)` for a positive step -/
+def range3 (a b c : Int) : List Int :=
+  if c ≤ 0 then [] else (List.range ((b - a + c - 1) / c).toNat).map (fun (i : Nat) => a + c * (i : Int))
+
+/-- big-endian value of a byte string -/
+def beNat (b : Bytes) : Nat := b.foldl (fun a x => a * 256 + x.toNat) 0
+
+/-- `struct.unpack(fmt, b)[0]` for the one-field formats the code uses (`struct.error` — `none` — for a buffer of the wrong size and for
+    any other format) -/
+def unpack1 (fmt : Str) (b : Bytes) : Option Int :=
+  if fmt = ['>', 'I'] then (if b.length = 4 then some (beNat b : Int) else none)
+  else if fmt = ['>', 'i'] then (if b.length = 4 then some (if beNat b < 2 ^ 31 then (beNat b : Int) else (beNat b : Int) - 2 ^ 32) else none)
+  else if fmt = ['>', 'H'] then (if b.length = 2 then some (beNat b : Int) else none)
+  else if fmt = ['B'] then (if b.length = 1 then some (beNat b : Int) else none)
+  else none
+
 /-! ### the definitions agree with CPython on sampled values (expected values computed with CPython 3.12) -/
 example : band (-6) 29 = 24 ∧ band 29 (-6) = 24 ∧ band (-6) (-29) = -30 ∧ band 4242 999 = 130 := by decide
 example : bor (-6) 29 = -1 ∧ bor 29 (-7) = -3 ∧ bor (-6) (-29) = -5 ∧ bor 4242 999 = 5111 ∧ bor (-100) 33 = -67 := by decide
@@ -147,6 +166,9 @@ example : delItem [1, 2, 3] 1 = some [1, 3] ∧ delItem [1, 2, 3] (-1) = some [1
     ∧ padTo [1] 3 0 = [1, 0, 0] ∧ padTo [1, 2, 3] 2 0 = [1, 2, 3] := by decide
 example : find "OpenSSH_8.9".toList "SSH".toList = 4 ∧ find "abc".toList "x".toList = -1 ∧ find "abc".toList [] = 0 ∧ find [] [] = 0
     ∧ find "aab".toList "ab".toList = 1 ∧ find "ab".toList "abc".toList = -1 := by decide
+example : repeatB [255] 3 = [255, 255, 255] ∧ repeatB [0] (-1) = [] ∧ range3 0 10 4 = [0, 4, 8] ∧ range3 0 8 4 = [0, 4] ∧ range3 0 0 4 = []
+    ∧ unpack1 ['>', 'I'] [255, 255, 255, 254] = some 4294967294 ∧ unpack1 ['>', 'i'] [255, 255, 255, 254] = some (-2)
+    ∧ unpack1 ['>', 'i'] [127, 0, 0, 1] = some 2130706433 ∧ unpack1 ['>', 'I'] [1, 2, 3] = none ∧ unpack1 ['>', 'H'] [1, 2] = some 258 := by decide
 example : fmtD 0 = ['0'] ∧ fmtD (-12) = ['-', '1', '2'] ∧ fmtD 3072 = ['3', '0', '7', '2'] := by decide
 example : indexOf [(0 : Int), 2, 3, 1, -1] 1 = some 3 ∧ indexOf [(0 : Int), 2, 3, 1, -1] 7 = none ∧ indexOf [(5 : Int), 5] 5 = some 0 := by decide
 
